@@ -8,16 +8,18 @@ graph refers (by identity) to a configuration registered on that model, axes are
 known rank and not repeated after normalisation, `num_shards >= 1`, stages `>= 0`, device indices
 inside the configuration, one record per configuration and one spec per (configuration, value).
 -/
-import IrVerif.Lemmas.Device
+import IrVerif.Lemmas.DeviceRT
 namespace IrVerif.Device
 
 /-! ### C19_step -/
 
-/-- **C19_step** (all operations except the serialization round trip, see `C19_roundtrip`):
-    every operation of the alphabet — valid or rejected — preserves `DevOK`, provided the
-    in-alphabet condition `Pre` holds for it. -/
-theorem C19_step_partial (w : World) (op : Op) (hrt : ∀ m, op ≠ .roundTrip m) (h : DevOK w)
-    (hpre : Pre w op) : DevOK (step w op).1 := by
+/-- **C19_step**: every operation of the alphabet — annotate (`shard`, `set_pipeline_stage`, valid or
+    rejected), register / remove a configuration with cascade, rename, replace an input, resize
+    inputs / outputs, append / remove a node, clone, serialize -> deserialize — preserves `DevOK`,
+    provided the in-alphabet condition `Pre` holds for it (ids exist; the configuration of an
+    annotation request is registered on the node's model with device indices inside it;
+    `cascade=True`; a round trip is taken of a model whose named values have unique names). -/
+theorem C19_step (w : World) (op : Op) (h : DevOK w) (hpre : Pre w op) : DevOK (step w op).1 := by
   cases op with
   | newModel ir => exact DevOK_newModel h ir
   | newInput m name shape => exact DevOK_newInput h m name shape
@@ -35,7 +37,49 @@ theorem C19_step_partial (w : World) (op : Op) (hrt : ∀ m, op ≠ .roundTrip m
   | resizeInputs n k => exact DevOK_resizeInputs h n k
   | resizeOutputs n k => exact DevOK_resizeOutputs h n k
   | clone m => exact DevOK_clone h m
-  | roundTrip m => exact absurd rfl (hrt m)
+  | roundTrip m => exact DevOK_roundTrip h m hpre
+
+/-- `Pre` holds for every operation of the history at the world it is applied to -/
+def PreAll : World → List Op → Prop
+  | _, [] => True
+  | w, op :: rest => Pre w op ∧ PreAll (step w op).1 rest
+
+def PreAll.dec : (ops : List Op) → (w : World) → Decidable (PreAll w ops)
+  | [], _ => isTrue trivial
+  | op :: rest, w =>
+    have := PreAll.dec rest (step w op).1
+    by unfold PreAll; infer_instance
+
+instance (w : World) (ops : List Op) : Decidable (PreAll w ops) := PreAll.dec ops w
+
+/-- **C19_history**: after every finite in-alphabet history from a world satisfying `DevOK`
+    (in particular from the empty world) `DevOK` holds — by induction on the history. -/
+theorem C19_history (ops : List Op) : ∀ (w : World), DevOK w → PreAll w ops → DevOK (run w ops).1 := by
+  induction ops with
+  | nil => intro w h _; exact h
+  | cons op rest ih =>
+    intro w h hp
+    exact ih (step w op).1 (C19_step w op h hp.1) hp.2
+
+/-- non-vacuity of `Pre`/`DevOK`: a history with annotations, a rename, a detach, a cascade
+    removal, a clone and a round trip satisfies `PreAll`, and the final world has annotations. -/
+example :
+    let ops : List Op := [.newModel 11, .newInput 0 "x" (some [.int 2, .int 3]), .newInput 0 "y" none,
+      .newNode 0 [some 0, some 1] [("o", some [.int 2])], .addCfg 0 "c" (some 2) [], .addCfg 0 "d" (some 1) [],
+      .shard 0 0 0 (-1) 2 [0, 1] (some 1), .shard 0 2 0 0 2 [1] none, .setStage 0 1 0,
+      .rename 0 "x2", .clone 0, .roundTrip 0, .removeCfg 0 (.byName "d") true,
+      .replaceInput 0 0 (some 1), .resizeOutputs 0 0]
+    PreAll {} ops ∧ (run {} ops).2.all (· = .ok) ∧
+    ((run {} ops).1.node 1).dev ≠ [] ∧ ((run {} ops).1.node 2).dev ≠ [] := by
+  decide
+
+/-- `Pre` is not vacuous the other way either: without it the invariant can be lost (documented
+    behaviour of `remove_device_configuration(cascade=False)`: dangling references remain). -/
+example :
+    let ops : List Op := [.newModel 11, .newInput 0 "x" none, .newNode 0 [some 0] [("o", none)],
+      .addCfg 0 "c" (some 2) [], .shard 0 0 0 0 2 [] none, .removeCfg 0 (.byObj 0) false]
+    ¬ DevOK (run {} ops).1 ∧ check (run {} ops).1 0 = [Err.cfgNotDeclared] := by
+  decide
 
 theorem DevOK_empty : DevOK {} := by
   constructor <;> intro x hx <;> cases hx
@@ -125,6 +169,12 @@ theorem C19_names_current (w : World) (m : MId) (protos : List (List PCfg))
     (h : serModelDev w m = some protos) (hir : 11 ≤ (w.model m).irVersion) :
     protos = (w.model m).nodes.map (fun n => (w.node n).dev.map (cfgProto w)) :=
   serModelDev_eq h hir
+
+/-- **C19_serializable**: with `DevOK` and named sharded values, serialization of the device fields
+    does not raise (so `C19_names_current` applies). -/
+theorem C19_serializable (w : World) (h : DevOK w) (hn : Named w) (m : MId) :
+    ∃ protos, serModelDev w m = some protos :=
+  serModelDev_some h hn m
 
 /-- after `value.name = s` the name read by serialization is `s` -/
 theorem C19_rename_followed (w : World) (v : VId) (s : String) (hv : v < w.values.length) (sp : Spec)
